@@ -444,11 +444,12 @@ class PusTm(AbstractPusTm):
 
     @tm_data.setter
     def tm_data(self, data: bytes):
-        self._source_data = data
         stamp_len = len(self.pus_tm_sec_header.timestamp)
-        self.space_packet_header.data_len = self.data_len_from_src_len_timestamp_len(
-            stamp_len, len(data)
-        )
+        data_len = self.data_len_from_src_len_timestamp_len(stamp_len, len(data))
+        if data_len > pow(2, 16) - 1:
+            raise ValueError("source data too large for the 16 bit data length field")
+        self._source_data = data
+        self.space_packet_header.data_len = data_len
 
     @property
     def apid(self):
